@@ -136,6 +136,9 @@ def make_init_labels(spec):
 
     def f(K, data):
         T = data.shape[0]
+        if kind == "raise":
+            from ticcmon import inject
+            raise inject.make_exc(spec["cls"], spec["msg"])
         if kind == "alternating":
             return [i % K for i in range(T)]
         if kind == "blocks":
